@@ -259,6 +259,26 @@ structure JwtExt where
   /-- `jwt.Signed(signer).Claims(c).Serialize()`: the serialisation of the claims signed by the deployment's signer -/
   resign : authInfoJWT → Str × Option Err
 
+/-! ### lib/certgen `VerifyIPRestrictedX509CertIP` -/
+
+/-- `IpAdressFamily` with its addresses as opaque bit strings `β` -/
+structure IpAdressFamily (β : Type) where
+  AddressFamily : List Nat
+  Addresses : List β
+
+/-- externals: `net.SplitHostPort`, `net.ParseIP`, the OID test of an extension (`ε` = extensions), `asn1.Unmarshal` of
+the extension's value into the family list, `bytes.Equal`, the decoder of one block (`ι` = decoded netblocks; the decoder
+itself is the subject of `c11_roundtrip` / `c11_malformed`) and `net.IPNet.Contains` -/
+structure IPExt (ε β ι : Type) where
+  splitHostPort : Str → Str × Str × Option Err
+  parseIP : Str → Nat
+  isDelegation : ε → Bool
+  unmarshal : Option ε → List (IpAdressFamily β) × List Nat × Option Err
+  v4afi : List Nat
+  bytesEqual : List Nat → List Nat → Bool
+  decode : β → ι × Option Err
+  contains : ι → Nat → Bool
+
 /-! ### cmd/keymasterd `consumeLoginChallenge` -/
 
 /-- `localUserData`: the pending challenge of a user; the two challenge pointers are compared by identity (numbers
